@@ -98,6 +98,11 @@ def _job(job):
     return res
 
 
+def _order(e):
+    import json
+    return (E._size(e), json.dumps(e, sort_keys=True))
+
+
 # ------------------------------------------------------------------------------------------------ replay
 def replay(case):
     old = _set_line_size(case.get('line_size'))
@@ -186,7 +191,7 @@ def run(ck: Check) -> int:
                     agg[key] = dict(f)
                 else:
                     agg[key]['count'] += f['count']
-                    if E._size(f['expr']) < E._size(agg[key]['expr']):
+                    if _order(f['expr']) < _order(agg[key]['expr']):
                         cnt = agg[key]['count']
                         agg[key] = dict(f)
                         agg[key]['count'] = cnt
